@@ -126,7 +126,13 @@ def install_modules():
         shim.fake_module('gidgethub.aiohttp', GitHubAPI=_GitHubAPI)
         shim.fake_module('gidgethub.routing', Router=_Router)
         shim.fake_module('gidgethub.sansio', Event=Event)
-        shim.fake_module('jinja2', Template=_Template, StrictUndefined=object())
+        # permissive module (web_common touches jinja2.BaseLoader etc. at import); only Template is functional
+        j = shim.StubModule('jinja2')
+        j.__path__ = []
+        j.__sim_fake__ = True
+        j.Template = _Template
+        j.StrictUndefined = object()
+        sys.modules['jinja2'] = j
     import gear.cloud_config as cc
     if cc.global_config is None:
         cc.global_config = dict(GLOBAL_CONFIG)
@@ -304,7 +310,8 @@ class SimGitHub:
                 for a in sorted(data.get('assignees', [])):
                     if a not in p.assignees:
                         p.assignees.append(a)
-                self.log.add('github', 'assignees', p.number, tuple(p.assignees))
+                if data.get('assignees'):
+                    self.log.add('github', 'assignees', p.number, tuple(p.assignees))
             await self._leg()
             return {}
         raise self.w.escape(f'post {url}')
@@ -584,7 +591,7 @@ class SimBatchService:
         self.batches[bid] = r
         # seeded fate: 0 = quick success
         dur = 10.0 + self.s.draw(61) * 30.0
-        outcome = 'success' if self.s.weighted([7, 2]) == 0 else 'failure'
+        outcome = 'success' if self.s.weighted([8, 1]) == 0 else 'failure'
         kind = 'test' if attrs.get('test') == '1' else ('deploy' if attrs.get('deploy') == '1' else 'other')
         self.log.add('batch', 'created', bid, kind, attrs.get('pr', '-'), attrs.get('source_sha', attrs.get('sha', '-')),
                      attrs.get('target_sha', '-'), dur, outcome)
